@@ -7,6 +7,7 @@ import time
 from . import facts as factsmod
 
 VERIF = factsmod.VERIF
+OUT = os.environ.get("DMX_OUT_DIR", VERIF)  # evidence/reports root (overridden when trying patches on scratch copies)
 
 
 class AnchorMissing(Exception):
@@ -111,7 +112,7 @@ def finish(pid, spec, obs, ctx, t0):
             print("KNOWN-FINDING: property=%s %s (%s)" % (pid, k.get("what", o.what), o.key))
         else:
             new_viol.append(o)
-    rep_dir = os.path.join(VERIF, "reports", pid)
+    rep_dir = os.path.join(OUT, "reports", pid)
     os.makedirs(rep_dir, exist_ok=True)
     for f in os.listdir(rep_dir):
         try:
@@ -178,8 +179,8 @@ def finish(pid, spec, obs, ctx, t0):
         "wall_s": round(time.time() - t0, 3),
         "violations": len(new_viol),
     }
-    os.makedirs(os.path.join(VERIF, "evidence"), exist_ok=True)
-    with open(os.path.join(VERIF, "evidence", pid + ".json"), "w") as fh:
+    os.makedirs(os.path.join(OUT, "evidence"), exist_ok=True)
+    with open(os.path.join(OUT, "evidence", pid + ".json"), "w") as fh:
         json.dump(ev, fh, indent=1)
     print("%s %s: %d obligations, %d held, %d undecided, %d violations (%d known) in %.1fs" % (
         pid, ctx.tier, len(real), sum(1 for o in real if o.ok), len(undec), len(viol), len(viol) - len(new_viol),
